@@ -1,14 +1,18 @@
-(* Model/C02Reconstruct.v — ttensor.reconstruct(samples, modes) with index-list samples (ttensor.py:596-627), line by line:
+(* Model/C02Reconstruct.v — ttensor.reconstruct(samples, modes) with index-list samples (ttensor.py:596-633), line by line:
 
+     if len(samples) != len(modes): raise ValueError                                (impl_reconstruct_req)
+     mode_list = [int(mode) for mode in modes]
+     if any(not 0 <= mode < self.ndims ...) or len(set(mode_list)) != len(mode_list): raise ValueError      (9d2314a, finding C19-N29:
+                                                                      negative / out-of-range / REPEATED modes are a rejected request: recon_modes_ok)
      full_samples = [np.array([])] * ndims
-     for sample, mode in zip(samples, modes): full_samples[mode] = sample          (a later pair for the same mode overrides an earlier one)
+     for sample, mode in zip(samples, modes): full_samples[mode] = sample          (impl_reconstruct = the body BEHIND the request test)
      for k in range(ndims):
          if len(full_samples[k]) == 0: new_u.append(factor_matrices[k]); continue   (an EMPTY sample keeps the whole factor)
          ... new_u.append(factor_matrices[k][full_samples[k], :])                   (row selection; rows may repeat, any order)
      return ttensor(self.core, new_u).full()                                        (full(): Model/C02TuckerFull.v)
 
    (the branch for a 2-d sample matrix with shape[k] columns, sample.dot(factor), is not modelled.)  Proofs: Proofs/C02ReconstructProofs.v *)
-From Coq Require Import List Arith Lia Bool.
+From Coq Require Import List Arith Lia Bool ZArith.
 From PV Require Import Base.Index Base.Perm Base.Sum Np.Array Model.Sparse Model.Repr Model.C02Spec Model.C02Dense Model.C02Tucker Model.C02TuckerFull.
 Import ListNotations.
 
@@ -40,3 +44,19 @@ Fixpoint sample_idx (fs : list (list nat)) (i : idx) : idx :=
 Definition rows_ok (Us : list (@matrix V)) (fs : list (list nat)) : Prop :=
   Forall2 (fun U r => Forall (fun q => q < nrows U) r) Us fs.
 End Rec.
+
+(* the request test in front of the body (wave 6, 9d2314a): samples and modes pair up one to one, every mode is an integer of [0, ndims) and no mode is
+   named twice; anything else is rejected (None).  Modes are the caller's integers (Z): a negative mode is a request like any other. *)
+Section RecReq.
+Context {V : Type} (v0 v1 : V) (vadd vmul : V -> V -> V).
+
+Fixpoint zdistinctb (l : list Z) : bool :=
+  match l with [] => true | m :: r => negb (existsb (Z.eqb m) r) && zdistinctb r end.
+
+Definition recon_modes_ok (N : nat) (modes : list Z) : bool :=
+  forallb (fun m => (0 <=? m)%Z && (m <? Z.of_nat N)%Z) modes && zdistinctb modes.
+
+Definition impl_reconstruct_req (T : ttensor V) (modes : list Z) (samples : list (list nat)) : option (dense V) :=
+  if Nat.eqb (length samples) (length modes) && recon_modes_ok (length (tfactors T)) modes
+  then Some (impl_reconstruct v0 vadd vmul T (map Z.to_nat modes) samples) else None.
+End RecReq.
